@@ -1270,6 +1270,12 @@ func (bc *Blockchain) resetStateInternal(height uint32, stage stateChangeStage) 
 		// There's nothing to do after that, so just continue with common operations
 		// and remove state reset stage in the end. But if the reset is being resumed
 		// right at this stage, the state root module was not yet initialized.
+		if stage == transfersReset {
+			err = bc.stateRoot.Init(height)
+			if err != nil {
+				return fmt.Errorf("failed to initialize state root module: %w", err)
+			}
+		}
 	default:
 		return fmt.Errorf("unknown state reset stage: %d", stage)
 	}
